@@ -188,4 +188,120 @@ theorem visible_plain (o : DisplayOpts) (hd : o.display = true) (ho : o.overwrit
     congr 1
     cases hc : cycleEnd o (k + 1) <;> simp [rowEvent, ho, hc]
 
+/-! ### several calls -/
+
+/-- the lines one call (`k` insertions then `end()`) adds to an ideal terminal in overwrite mode,
+    when `L` records exist already: the header if it is still pending and something is inserted,
+    the records that end a cycle, the last record of the call, and — for a call that inserts
+    nothing while the last record did not end a cycle — the blank line `end()` prints -/
+def callLines (o : DisplayOpts) (L : Nat) (pending : Bool) (k : Nat) : List Line :=
+  (if pending && decide (0 < k) then [Line.header] else []) ++
+    ((List.range k).filter (fun n => cycleEnd o (L + n + 1) || decide (n + 1 = k))).map (fun n => Line.row (L + n)) ++
+    (if decide (k = 0) && decide (o.period > 1) && !(cycleEnd o L) then [Line.blank] else [])
+
+/-- all calls -/
+def callsLines (o : DisplayOpts) : Nat → Bool → List Nat → List Line
+  | _, _, [] => []
+  | L, pending, k :: ks => callLines o L pending k ++ callsLines o (L + k) (pending && decide (k = 0)) ks
+
+theorem dispEnd_len (o : DisplayOpts) (s : Disp) : (dispEnd o s).len = s.len := by
+  unfold dispEnd; split <;> rfl
+
+theorem dispEnd_pending (o : DisplayOpts) (s : Disp) : (dispEnd o s).hdrPending = s.hdrPending := by
+  unfold dispEnd; split <;> rfl
+
+theorem screen_overwrite_rows_from (o : DisplayOpts) (L k : Nat) (ls : List Line) :
+    (Screen.mk ls none).run ((List.range k).map (fun n => PrintEv.row (L + n) (cycleEnd o (L + n + 1)))) =
+      ⟨ls ++ ((List.range k).filter (fun n => cycleEnd o (L + n + 1))).map (fun n => Line.row (L + n)),
+        if k = 0 then none else if cycleEnd o (L + k) then none else some (L + k - 1)⟩ := by
+  induction k with
+  | zero => simp [Screen.run]
+  | succ k ih =>
+    rw [List.range_succ, List.map_append, Screen.run_append, ih]
+    simp only [List.map_cons, List.map_nil, Screen.run, List.foldl_cons, List.foldl_nil, List.filter_append,
+      List.filter_cons, List.filter_nil, List.map_append]
+    have e1 : L + (k + 1) = L + k + 1 := by omega
+    have e2 : L + k + 1 - 1 = L + k := by omega
+    cases hc : cycleEnd o (L + k + 1) <;> simp [Screen.step, hc, e1, e2]
+
+/-- one call in overwrite mode, from any state whose output left the cursor on a fresh line -/
+theorem screen_call_overwrite (o : DisplayOpts) (hd : o.display = true) (ho : o.overwrite = true)
+    (hp : 0 < o.period) (k : Nat) (s : Disp) (ls : List Line)
+    (hs : (Screen.mk [] none).run s.out = ⟨ls, none⟩) :
+    (Screen.mk [] none).run (dispEnd o (dispInserts o k s)).out =
+        ⟨ls ++ callLines o s.len s.hdrPending k, none⟩ ∧
+      (dispEnd o (dispInserts o k s)).len = s.len + k ∧
+      (dispEnd o (dispInserts o k s)).hdrPending = (s.hdrPending && decide (k = 0)) := by
+  have hrow1 : ∀ n, rowEvent o n = [PrintEv.row n (cycleEnd o (n + 1))] := by
+    intro n; simp [rowEvent, ho]
+  have hlen : (dispEnd o (dispInserts o k s)).len = s.len + k := by
+    rw [dispEnd_len, dispInserts_on o hd]
+  have hpend : (dispEnd o (dispInserts o k s)).hdrPending = (s.hdrPending && decide (k = 0)) := by
+    rw [dispEnd_pending, dispInserts_on o hd]
+  refine ⟨?_, hlen, hpend⟩
+  rw [dispInserts_on o hd]
+  simp only [hrow1, flatMap_single]
+  unfold dispEnd
+  simp only [hd, ho, Bool.true_and]
+  -- the screen after the header (if any)
+  have hhdr : ((Screen.mk [] none).run (s.out ++ (if (s.hdrPending && decide (0 < k)) = true then [PrintEv.header] else []))) =
+      ⟨ls ++ (if (s.hdrPending && decide (0 < k)) = true then [Line.header] else []), none⟩ := by
+    rw [Screen.run_append, hs]
+    split <;> simp [Screen.run, Screen.step]
+  by_cases hk : k = 0
+  · subst hk
+    simp only [Nat.lt_irrefl, decide_false, Bool.and_false, Bool.false_eq_true, if_false, List.append_nil,
+      List.range_zero, List.map_nil, Nat.add_zero, callLines, List.filter_nil, decide_true, Bool.true_and]
+    by_cases hc : (decide (o.period > 1) && !cycleEnd o s.len) = true
+    · simp only [hc, if_true, Screen.run_append, hs]
+      simp [Screen.run, Screen.step]
+    · simp only [hc, Bool.false_eq_true, if_false, hs, List.append_nil]
+  · obtain ⟨j, rfl⟩ : ∃ j, k = j + 1 := ⟨k - 1, by omega⟩
+    have hfilter : (List.range (j + 1)).filter (fun n => cycleEnd o (s.len + n + 1) || decide (n + 1 = j + 1)) =
+        (List.range j).filter (fun n => cycleEnd o (s.len + n + 1)) ++ [j] := by
+      rw [List.range_succ, List.filter_append]
+      have h1 : (List.range j).filter (fun n => cycleEnd o (s.len + n + 1) || decide (n + 1 = j + 1)) =
+          (List.range j).filter (fun n => cycleEnd o (s.len + n + 1)) := by
+        apply List.filter_congr
+        intro n hn
+        have : n < j := List.mem_range.mp hn
+        have : n ≠ j := by omega
+        simp [this]
+      rw [h1]
+      simp
+    have hnz : decide (j + 1 = 0) = false := by simp
+    simp only [callLines, hfilter, hnz, Bool.false_and, Bool.false_eq_true, if_false, List.append_nil]
+    by_cases hc : cycleEnd o (s.len + (j + 1)) = true
+    · simp only [hc, Bool.not_true, Bool.and_false, Bool.false_eq_true, if_false, List.append_nil]
+      rw [Screen.run_append, hhdr, screen_overwrite_rows_from]
+      simp only [Nat.add_one_ne_zero, if_false, hc, if_true]
+      rw [List.range_succ, List.filter_append]
+      have hc' : cycleEnd o (s.len + j + 1) = true := by rw [← hc]; congr 1
+      simp [hc', List.append_assoc]
+    · have hc' : cycleEnd o (s.len + (j + 1)) = false := by simpa using hc
+      have hp1 : 1 < o.period := by
+        by_cases h1 : o.period = 1
+        · rw [cycleEnd_period_one o h1] at hc'; cases hc'
+        · omega
+      simp only [hc', Bool.not_false, Bool.and_true, decide_eq_true_eq, hp1, if_true]
+      rw [Screen.run_append, Screen.run_append, hhdr, screen_overwrite_rows_from]
+      simp only [Nat.add_one_ne_zero, if_false, hc', Bool.false_eq_true]
+      have hc'' : cycleEnd o (s.len + j + 1) = false := by rw [← hc']; congr 1
+      have e2 : s.len + (j + 1) - 1 = s.len + j := by omega
+      simp only [Screen.run, List.foldl_cons, List.foldl_nil, Screen.step, e2]
+      rw [List.range_succ, List.filter_append]
+      simp [hc'', List.append_assoc]
+
+/-- **any number of calls, overwrite mode** -/
+theorem screen_calls_overwrite (o : DisplayOpts) (hd : o.display = true) (ho : o.overwrite = true)
+    (hp : 0 < o.period) (ks : List Nat) (s : Disp) (ls : List Line)
+    (hs : (Screen.mk [] none).run s.out = ⟨ls, none⟩) :
+    (Screen.mk [] none).run (dispCalls o ks s).out = ⟨ls ++ callsLines o s.len s.hdrPending ks, none⟩ := by
+  induction ks generalizing s ls with
+  | nil => simp [dispCalls, callsLines, hs]
+  | cons k ks ih =>
+    obtain ⟨h1, h2, h3⟩ := screen_call_overwrite o hd ho hp k s ls hs
+    rw [dispCalls, ih _ _ h1, h2, h3]
+    simp [callsLines, List.append_assoc]
+
 end Scico.Driver
